@@ -9,6 +9,7 @@ import (
 
 	"verifharness/eng"
 	"verifharness/mon"
+	"verifharness/sim"
 
 	"github.com/btcsuite/btcd/btcec/v2"
 )
@@ -62,7 +63,108 @@ func wireContains(hay [][]byte, needle []byte) string {
 	return ""
 }
 
+// runC03Paired: the "stored at pairing time" half of the statement as a
+// sequence on the same ConnData objects (with the application's callbacks
+// installed, as every real client and server has them): a first pairing over
+// the passphrase, then (a) somebody with another static key who knows the
+// passphrase calls the paired responder, (b) the paired initiator calls a
+// responder with another static key who knows the passphrase, for every
+// version range of the second handshake, and (c) the two paired parties
+// reconnect as a control.
+func runC03Paired(c *mon.Case) {
+	rng := c.Rng
+	auth := authMarker(rng, []int{0, 1, 300, 499, 5000}[rng.Intn(5)]+16)
+	evil := authMarker(rng, 64)
+	keyC, keyS := eng.NewKey(rng), eng.NewKey(rng)
+	pass := eng.Entropy(rng)
+	// the pairing runs at version 2 (earlier versions exchange no keys)
+	pair := eng.RunHandshake(eng.HSConfig{CMin: 2, CMax: 2, SMin: byte(rng.Intn(3)), SMax: 2,
+		PassC: pass, PassS: append([]byte{}, pass...), Auth: auth, KeyC: keyC, KeyS: keyS})
+	rep := map[string]any{"kind": "paired-then-other-key"}
+	if !pair.OK() {
+		c.Shard.Violate("control-failed|pairing", fmt.Sprintf("first pairing with matching passphrases and maximum version 2 failed: client=%v server=%v", pair.C.Err, pair.S.Err), rep)
+		return
+	}
+	pc, ps := pair.C, pair.S
+	vr := [][2]byte{{0, 0}, {0, 1}, {1, 1}, {0, 2}, {1, 2}, {2, 2}}
+	v1, v2 := vr[c.Idx%len(vr)], vr[(c.Idx/len(vr))%len(vr)]
+	fail := func(key, desc string) {
+		c.Shard.Violate("paired|"+key, fmt.Sprintf("%s (second handshake: initiator versions %v, responder versions %v)", desc, v1, v2), rep)
+	}
+	wrote := func(h *sim.Half) int {
+		n := 0
+		if h != nil {
+			for _, w := range h.Written {
+				n += len(w)
+			}
+		}
+		return n
+	}
+	// (a) another key + the passphrase -> the paired responder
+	remN := ps.RemoteN
+	a := eng.RunHandshake(eng.HSConfig{CMin: v1[0], CMax: v1[1], SMin: v2[0], SMax: v2[1],
+		PassC: append([]byte{}, pass...), KeyC: eng.NewKey(rng), KeyS: keyS, ReuseS: ps})
+	rep["a_errors"] = fmt.Sprintf("initiator new=%v hs=%v / responder new=%v hs=%v", a.C.NewErr, a.C.Err, a.S.NewErr, a.S.Err)
+	if a.C.NewErr == nil && a.S.NewErr == nil {
+		if a.S.Err == nil {
+			fail("responder-completed", "a responder that stored its peer's static key at pairing time completed a handshake with an initiator that holds another static key and the pairing passphrase")
+		}
+		if n := wrote(a.S2C); n != 0 {
+			fail("responder-wrote", fmt.Sprintf("the paired responder emitted %d bytes of handshake response to an initiator with another static key", n))
+		}
+		if a.C.Err == nil {
+			fail("initiator-completed", "an initiator with another static key completed a handshake with the paired responder")
+		}
+		if a.C.AuthCBn != 0 || a.C.CD.AuthData() != nil {
+			fail("auth-released", "an initiator with another static key obtained the auth payload from the paired responder")
+		}
+		all := append(append([][]byte{}, a.S2C.Written...), a.C2S.Written...)
+		if form := wireContains(all, auth); form != "" {
+			fail("auth-on-wire", "the auth payload marker appears on the wire in "+form+" form")
+		}
+	}
+	if !keyEq(ps.CD.RemoteKey(), keyC.PubKey()) || ps.RemoteN != remN {
+		fail("remote-key-changed", fmt.Sprintf("the responder's stored remote key is not (any more) the one of the party it was paired with (callback ran %d more times)", ps.RemoteN-remN))
+	}
+	// (b) the paired initiator -> another key + the passphrase
+	remN, authN := pc.RemoteN, pc.AuthCBn
+	b := eng.RunHandshake(eng.HSConfig{CMin: v1[0], CMax: v1[1], SMin: v2[0], SMax: v2[1],
+		PassS: append([]byte{}, pass...), Auth: evil, KeyC: keyC, KeyS: eng.NewKey(rng), ReuseC: pc})
+	rep["b_errors"] = fmt.Sprintf("initiator new=%v hs=%v / responder new=%v hs=%v", b.C.NewErr, b.C.Err, b.S.NewErr, b.S.Err)
+	if b.C.NewErr == nil && b.S.NewErr == nil {
+		if b.C.Err == nil {
+			fail("initiator-completed", "an initiator that stored its peer's static key at pairing time completed a handshake with a responder that holds another static key and the pairing passphrase")
+		}
+		if b.S.Err == nil {
+			fail("responder-completed", "a responder with another static key completed a handshake with the paired initiator")
+		}
+	}
+	if pc.AuthCBn != authN || !bytes.Equal(pc.CD.AuthData(), auth) {
+		fail("auth-replaced", "the paired initiator accepted auth data from a responder with another static key")
+	}
+	if !keyEq(pc.CD.RemoteKey(), keyS.PubKey()) || pc.RemoteN != remN {
+		fail("remote-key-changed", "the initiator's stored remote key is not (any more) the one of the party it was paired with")
+	}
+	// (c) control: the paired parties reconnect
+	ctl := eng.RunHandshake(eng.HSConfig{CMin: 0, CMax: 2, SMin: 0, SMax: 2, KeyC: keyC, KeyS: keyS, ReuseC: pc, ReuseS: ps})
+	if !ctl.OK() {
+		fail("control-failed", fmt.Sprintf("the two paired parties could not reconnect: client new=%v hs=%v server new=%v hs=%v", ctl.C.NewErr, ctl.C.Err, ctl.S.NewErr, ctl.S.Err))
+	} else {
+		c.Shard.Count("controls_completed", 1)
+	}
+	c.Shard.Count("paired_then_other_key_sequences", 1)
+	c.Shard.Count("mismatch_handshakes", 2)
+	c.Shard.Eval(fmt.Sprintf("paired|%v|%v|%d", v1, v2, len(auth)))
+	if c.Idx%80 == 5 {
+		c.Shard.Sample(rep)
+	}
+}
+
 func runC03(c *mon.Case) {
+	if c.Idx%8 == 5 {
+		runC03Paired(c)
+		return
+	}
 	rng := c.Rng
 	// version ranges
 	var ranges [][4]byte
